@@ -28,6 +28,37 @@ Theorem C43_payload_correct : forall e reqs, let t := fst (stream_pack e reqs) i
   Forall2 (good_cb e) (firstn (length (t_cbs t)) (sort reqs)) (t_cbs t).
 Proof. exact payload_correct. Qed.
 
+(* streamPack is exactly: the parts computed by the split rules (parts_of), each handed to streamPackPart in
+   turn until one fails; an overlap found by the loop ends the run with an error *)
+Theorem C43_stream_pack_parts : forall e reqs,
+  stream_pack e reqs = finish (run_parts e (mkTr [] []) (fst (parts_of reqs))) (snd (parts_of reqs)).
+Proof. exact stream_pack_parts. Qed.
+
+(* the parts partition the offset-sorted requests (a prefix of them if an overlap stopped the loop); every
+   part is non-empty, in offset order without overlap, with gaps <= maxUnusedRange, and - unless it is a
+   single blob - spans less than maxChunkSize = 2*DefaultPackSize *)
+Theorem C43_parts_partition : forall reqs, Forall nonneg reqs ->
+  Forall part_ok (fst (parts_of reqs)) /\
+  exists rest, concat (fst (parts_of reqs)) ++ rest = sort reqs /\ (snd (parts_of reqs) = false -> rest = []).
+Proof. exact parts_partition. Qed.
+
+(* no panic: streamPackPart never sees an empty part or a negative range, for all requests with lengths >= 0 *)
+Theorem C43_no_panic : forall e reqs, Forall nonneg reqs -> snd (stream_pack e reqs) <> RPanic.
+Proof. exact no_panic. Qed.
+
+(* a callback error ends the run: at most j+1 callbacks when invocation j fails, and the result is an error *)
+Theorem C43_callback_error_stops : forall e reqs j, e_cbfail e = Some j ->
+  (length (t_cbs (fst (stream_pack e reqs))) <= S j)%nat /\
+  ((j < length (t_cbs (fst (stream_pack e reqs))))%nat -> snd (stream_pack e reqs) = RErr).
+Proof. exact callback_error_stops. Qed.
+
+(* when no download can fail, a blob is reported as error only if it is neither intact in the pack nor
+   loadable from the fallback copy *)
+Theorem C43_no_failure_all_delivered : forall e reqs, no_load_failure e reqs = true ->
+  let t := fst (stream_pack e reqs) in
+  Forall2 (strict_cb e) (firstn (length (t_cbs t)) (sort reqs)) (t_cbs t).
+Proof. exact no_failure_all_delivered. Qed.
+
 Theorem C43_oracle_sound : forall c, check_C43 c = true -> C43_holds c.
 Proof. exact check_C43_sound. Qed.
 
@@ -35,4 +66,9 @@ Print Assumptions C43_stream_pack_extends.
 Print Assumptions C43_at_most_once.
 Print Assumptions C43_once_each.
 Print Assumptions C43_payload_correct.
+Print Assumptions C43_stream_pack_parts.
+Print Assumptions C43_parts_partition.
+Print Assumptions C43_no_panic.
+Print Assumptions C43_callback_error_stops.
+Print Assumptions C43_no_failure_all_delivered.
 Print Assumptions C43_oracle_sound.
